@@ -360,6 +360,23 @@ func (x *Exec) callPackage(s *State, in *ssa.Call, callee *ssa.Function, args []
 		inline = false
 	}
 	if inline && x.inlineDepth < 6 {
+		if fc != nil {
+			// the preconditions of an inlined function are checked where it is inlined
+			env := &specEnv{x: x, s: s, where: "contract " + fc.Key, vars: map[string]sval{}}
+			for i, p := range callee.Params {
+				if p.Name() != "" && p.Name() != "_" {
+					env.vars[p.Name()] = sval{v: args[i], typ: p.Type()}
+				}
+			}
+			for i, cl := range fc.clauses("requires") {
+				if t, err := env.evalBool(cl.Expr); err == nil {
+					x.oblige(s, "call-requires", fmt.Sprintf("%s/%s", x.label(in), clauseLabel(cl, i)), t, in.Pos(), cl.Props)
+					s.assume(t)
+				} else {
+					x.unsupported("requires of %s: %v", fc.Key, err)
+				}
+			}
+		}
 		x.inlineDepth++
 		callerFrames := len(s.frames)
 		x.execFunction(s, callee, args, binds, func(s2 *State, res []Val) {
@@ -1337,7 +1354,9 @@ func (x *Exec) callFuncValue(s *State, in *ssa.Call, fexpr ssa.Value, fv Val, ar
 	}
 	if p, ok := fexpr.(*ssa.Parameter); ok {
 		if fc := x.p.Ctr.Fields[x.p.Names[p.Parent()]+"."+p.Name()]; fc != nil {
-			return x.applyContract(s, in, fc, nil, args, nil, sig)
+			res := x.applyContract(s, in, fc, nil, args, nil, sig)
+			x.dispatchConformers(s, x.p.Names[p.Parent()]+"."+p.Name(), fv, args, res, sig)
+			return res
 		}
 	}
 	if u, ok := fexpr.(*ssa.UnOp); ok {
@@ -1353,6 +1372,48 @@ func (x *Exec) callFuncValue(s *State, in *ssa.Call, fexpr ssa.Value, fv Val, ar
 	x.callFrameCheck(s, in, nil, nil)
 	x.havocAll(s, nil)
 	return x.resultVal(s, in, sig.Results())
+}
+
+// dispatchConformers: what a function value does beyond the contract of the slot it sits in is known
+// when the value is one of the functions declared to conform to that slot: for every side-effect free
+// conformer g without captured variables, fnid(value) == g implies g's own (proved) postconditions.
+func (x *Exec) dispatchConformers(s *State, key string, fv Val, args []Val, res Val, sig *types.Signature) {
+	if fv.K != vScalar {
+		return
+	}
+	var names []string
+	for n, g := range x.p.Ctr.Funcs {
+		if g.Conforms == key && g.HasMod && len(g.Modifies) == 0 {
+			names = append(names, n)
+		}
+	}
+	sort.Strings(names)
+	for _, n := range names {
+		g := x.p.Ctr.Funcs[n]
+		f := x.p.Funcs[n]
+		if f == nil || len(f.FreeVars) > 0 || len(f.Params) != len(args) {
+			continue
+		}
+		env := &specEnv{x: x, s: s, where: "conformer " + n, vars: map[string]sval{}}
+		env.oldHeap = map[string]T{}
+		for k, v := range s.heap {
+			env.oldHeap[k] = v
+		}
+		for i, p := range f.Params {
+			env.vars[p.Name()] = sval{v: args[i], typ: p.Type()}
+		}
+		if sig.Results().Len() == 1 {
+			env.vars["result"] = sval{v: res, typ: sig.Results().At(0).Type()}
+		}
+		guard := Eq(mk(SInt, "fnid", fv.T), IntLit(int64(x.p.fnID(f))))
+		for _, cl := range g.clauses("ensures") {
+			if t, err := env.evalBool(cl.Expr); err == nil {
+				s.assume(Implies(guard, t))
+			} else {
+				x.unsupported("ensures of conformer %s: %v", n, err)
+			}
+		}
+	}
 }
 
 // ---------------------------------------------------------------- Program helpers
